@@ -4,7 +4,7 @@
 From Coq Require Extraction ExtrOcamlBasic.
 From Schwifty Require Import Lib.Base Lib.Regex Model.Clean Model.Data Model.Iban Model.Bic.
 From Schwifty Require Import Gen.Env Gen.IbanData Gen.IbanCfg Gen.BicCfg.
-From Schwifty Require Import Spec.Iso13616 Spec.Iso9362.
+From Schwifty Require Import Spec.Iso13616 Spec.Iso9362 Spec.Defects.
 
 Definition national_stub (cc bban : text) : outcome bool := Ok true.
 
@@ -34,10 +34,21 @@ Definition x_bic_parts (s : text) : list text :=
 Definition x_bic_pat (strict : bool) := if strict then bc_swift the_bic_cfg else bc_iso the_bic_cfg.
 Definition s_iso9362_ok := iso9362_ok iso3166.
 
+Definition all_exn : list exn :=
+  [ESchwifty; EInvalidLength; EInvalidStructure; EInvalidCountryCode; EInvalidBankCode; EInvalidBranchCode;
+   EInvalidAccountCode; EInvalidChecksumDigits; EInvalidBBANChecksum; EGenerateRandomOverflow].
+(* None: the spec accepts; Some l: the defects present *)
+Definition s_iban_verdict (t : text) : option (list exn) :=
+  let s := clean the_env t in
+  if iso_ok the_table s then None else Some (filter (fun ex => iban_defect the_table ex s) all_exn).
+Definition s_bic_verdict (strict : bool) (t : text) : option (list exn) :=
+  let s := clean the_env t in
+  if iso9362_ok iso3166 strict s then None else Some (filter (fun ex => bic_defect iso3166 strict ex s) all_exn).
+
 Extraction Language OCaml.
 Set Extraction KeepSingleton.
 Extraction "extract/model.ml"
   x_clean x_iban_new x_iban_validate x_iban_is_valid x_iban_from_bban x_iban_formatted
   x_pat_apply x_chars_pat x_chars_method x_format_method x_row_regex
   s_iso_ok s_check_digits s_conforms
-  x_bic_new x_bic_validate x_bic_is_valid x_bic_formatted x_bic_parts x_bic_pat s_iso9362_ok.
+  x_bic_new x_bic_validate x_bic_is_valid x_bic_formatted x_bic_parts x_bic_pat s_iso9362_ok s_iban_verdict s_bic_verdict.
